@@ -58,6 +58,35 @@ def gen_plan(r, index, tier):
     return pl
 
 
+def systematic(tier):
+    """Very long elements: lengths that need three and four length octets, with the top bit of the first
+    length octet set and clear (8 MiB, 16 MiB - 1, 16 MiB)."""
+    out = []
+    sizes = [0x800000, 9000000] if tier == 'quick' else [0x7fffff, 0x800000, 0x800001, 9000000, 0xffffff, 0x1000000]
+    for i, n in enumerate(sizes):
+        big = {'k': 'OCTETSTRING', 'tags': []}
+        val = {'rep': '5a', 'n': n}
+        if i % 2:
+            desc = {'k': 'SEQ', 'tags': [], 'fields': [{'n': 'a', 'd': {'k': 'INTEGER', 'tags': []}, 'opt': 'R'},
+                                                       {'n': 'b', 'd': big, 'opt': 'R'}]}
+            value = {'a': 5, 'b': val}
+        else:
+            desc, value = big, val
+        codec = ['der', 'ber'][i % 2]
+        w = {'desc': desc, 'values': [value], 'codec': codec, 'decoder': common.decoder_for(codec),
+             'use_spec': i % 3 != 2, 'open_types': False}
+        out.append({'check': ID, 'mode': 'oneshot', 'workload': w, 'huge': n, 'timeout_s': 900, 'must_decode': True,
+                    'tails': [['empty', ''], ['eoo', '0000'], ['garbage', 'ff30']]})
+        w2 = dict(w, values=[value, value])
+        out.append({'check': ID, 'mode': 'stream', 'workload': w2, 'huge': n, 'timeout_s': 900, 'must_decode': True,
+                    'config': {'kind': 'file', 'threshold': None, 'prewrap': False},
+                    'steps': [['deliver', 0, 5], ['poll', 0], ['deliver', 0, n], ['poll', 0], ['drain']]})
+    return out
+
+
+SYSTEMATIC_CHUNK = 1
+
+
 def execute(plan):
     try:
         wl = W.Workload(plan['workload'])
@@ -80,6 +109,13 @@ def _wants_more_than_the_encoding(ex, e):
     return None
 
 
+def _rejected(ex, e):
+    """Catalogue shapes whose validity is beyond doubt (a plain OCTET STRING, SEQUENCE {INTEGER, OCTET STRING}) and
+    that decode at every smaller size: a rejection can only come from the length / consumption bookkeeping."""
+    return W.Violation('plain-element-rejected-at-this-length', tail_kind='none', exc_cls=type(ex).__name__,
+                       site=W.exc_site(ex), msg=str(ex)[:120], length=len(e))
+
+
 def bad_result(v, wl, e):
     return common.violation_result(v, _sig(v), [['decode', 'none', len(e)]], {}, None, None, {'kind': 'bytes'}, wl)
 
@@ -99,6 +135,8 @@ def _oneshot(plan, wl):
         bad = _wants_more_than_the_encoding(ex, e)
         if bad:
             return bad_result(bad, wl, e)
+        if plan.get('must_decode'):
+            return bad_result(_rejected(ex, e), wl, e)
         return common.skip_result('reference:%s' % type(ex).__name__)
     if not isinstance(ref_v, U.p.base.Asn1Item):
         return common.skip_result('reference-non-object')
@@ -162,6 +200,8 @@ def _stream(plan, wl):
             bad = _wants_more_than_the_encoding(ex, e)
             if bad:
                 return bad_result(bad, wl, e)
+            if plan.get('must_decode'):
+                return bad_result(_rejected(ex, e), wl, e)
             return common.skip_result('reference:%s' % type(ex).__name__)
         if not isinstance(v, U.p.base.Asn1Item):
             return common.skip_result('reference-non-object')
